@@ -70,6 +70,11 @@ func (w *webhookExecutorEtag) adjustResponse(
 		if !cacheEntryExists {
 			return nil, fmt.Errorf("cannot find cached response for cache key: %s", cacheKey)
 		}
+		if cacheEntry.Etag != request.Header.Get(headerIfNoneMatch) {
+			// The entry was replaced (e.g. by a concurrent call for the same object) after the
+			// If-None-Match header was set: its body does not belong to the ETag we sent.
+			return nil, fmt.Errorf("cached response for cache key: %s does not match the etag sent", cacheKey)
+		}
 		return cacheEntry.Response, nil
 	}
 	eTag := response.Header.Get(headerETag)
